@@ -1,7 +1,7 @@
 """C15 — every accepted document can be committed (partial)."""
 from sa import names as N
 from sa.prog import Site, Slice, TERM, callee_of, op_local, outcome_arms, in_arm, ok_sites
-from sa.rules.common import is_test_or_bench
+from sa.rules.common import is_test_or_bench, is_queue_receiver
 
 EXPLANATION = ("Decides a call-graph containment that holds for all documents or fails for some: every function in which the "
                "segment build can ORIGINATE an error from a document's content (bail!/anyhow!/Err construction in a function that "
@@ -129,7 +129,7 @@ def r15b(ctx, P):
         add, ab = chain[-1]
         a = Site(add, ab)
         sl = Slice(add)
-        pushes = [Site(add, b) for b, t in add.calls() if callee_of(t).endswith("Vec::<T, A>::push") and "pending_ops" in sl.fields(t["args"][0])]
+        pushes = [Site(add, b) for b, t in add.calls() if callee_of(t).endswith("Vec::<T, A>::push") and is_queue_receiver(add, sl, t["args"][0])]
         # fallible calls after the append (at any level of the chain) other than the push
         late = []
         for f, nb in chain:
